@@ -145,3 +145,30 @@ CHECK_DEADLOCK FALSE
 		Constants: fmt.Sprintf("kinds=%v keys=%s ops=%s maxTotal=%d quanta (Q=2)", kinds, keys, ops, maxTotal)})
 	fmt.Printf("  [MC %s] %d distinct states, %d generated: all invariants and action properties hold %.0fs\n", purpose, res.Distinct, res.Generated, time.Since(c.phaseStart).Seconds())
 }
+
+// runDenseImplMC model-checks the array-level model DenseImpl.tla (refinement of the abstract stores,
+// structural invariants, no out-of-bounds access) for one pair of store kinds with scaled-down constants.
+func (c *Ctx) runDenseImplMC(kinds string, overhead int, purpose string) {
+	if !c.phase("MC DenseImpl " + purpose) {
+		return
+	}
+	keys, maxTotal := "DKeysSmall", 3
+	if !c.quick() {
+		keys, maxTotal = "DKeys", 4
+	}
+	cfg := fmt.Sprintf(`SPECIFICATION Spec
+CONSTANTS
+  Overhead = %d
+  FixF3 = TRUE
+  Slots = {1, 2}
+  Keys <- %s
+  Weights = {1}
+  InitKinds <- %s
+  MaxTotal = %d
+CONSTRAINT BoundedC
+INVARIANTS I_NoPanic I_Refines I_Structure I_KeyAtRank
+CHECK_DEADLOCK FALSE
+`, overhead, keys, kinds, maxTotal)
+	res := c.runMC(TLCOpts{Module: "DenseImpl", Cfg: cfg, Purpose: "DenseImpl " + purpose, Constants: fmt.Sprintf("kinds=%s overhead=%d keys=%s maxTotal=%d", kinds, overhead, keys, maxTotal)})
+	fmt.Printf("  [MC DenseImpl %s] %d distinct states: I_NoPanic I_Refines I_Structure I_KeyAtRank hold %.0fs\n", purpose, res.Distinct, time.Since(c.phaseStart).Seconds())
+}
